@@ -1060,7 +1060,11 @@ class TextXVisitor(RRELVisitor):
         try:
             to_match = children[0][1:-1]
             if "\\" in to_match:
-                to_match = decode_escapes(to_match)
+                try:
+                    to_match = decode_escapes(to_match)
+                except ValueError as e:
+                    line, col = self.grammar_parser.pos_to_linecol(node.position)
+                    raise TextXSyntaxError(str(e), line, col) from e
 
         except IndexError:
             to_match = ""
